@@ -136,7 +136,7 @@ fn run_script(cfg: &script::Config, script: &[Step], rng: &mut Rng, out: &mut Ca
     }
     let sample: Json = json!({
         "lanes": cfg.lanes.iter().map(|l| format!("{}:{}{}", l.name, l.kind.name(), if l.transient { ":transient" } else { "" })).collect::<Vec<_>>(),
-        "remotes": cfg.remotes, "cap_out": cfg.cap_out, "prune_ms": cfg.prune_ms, "reporting": cfg.reporting,
+        "remotes": cfg.remotes, "cap_out": cfg.cap_out, "prune_ms": cfg.prune_ms, "inactive_ms": cfg.inactive_ms, "reporting": cfg.reporting,
         "script": describe(script).into_iter().take(14).collect::<Vec<_>>(),
         "frames_received": sum.frames,
     });
@@ -158,13 +158,14 @@ fn debug_script(which: u64, rng: &mut Rng) -> (script::Config, Vec<Step>) {
     let mut cfg = g.config(Focus::Links);
     drop(g);
     cfg.remotes = 2;
-    cfg.cap_out = vec![4096; 3];
+    cfg.cap_out = if which == 4 { vec![8; 3] } else { vec![4096; 3] };
     cfg.cap_in = vec![4096; 3];
     cfg.pace = vec![remote::FAST; 3];
     cfg.jitter_per_mille = 0;
     cfg.agent_jitter_per_mille = 0;
     cfg.reporting = true;
     cfg.prune_ms = None;
+    cfg.inactive_ms = None;
     cfg.lanes = vec![
         lanes::LaneSpec { name: "v0".into(), kind: lanes::LK::Value, transient: false, in_buf: 4096, out_buf: 4096, initial: Bytes::from_static(b"init0") },
         lanes::LaneSpec { name: "m1".into(), kind: lanes::LK::Map, transient: true, in_buf: 4096, out_buf: 4096, initial: Bytes::new() },
@@ -210,6 +211,25 @@ fn debug_script(which: u64, rng: &mut Rng) -> (script::Config, Vec<Step>) {
             Step::Link(0, "v0".into()),
             Step::Settle,
         ],
+        // keys `0.0` / `-0.0`: equal for compare_recon_values and as parsed values, hashed differently
+        4 => {
+            let upd = |k: &str, v: &str| Step::Lane(1, LaneCtl::Map(lanes::MapOpText::Update { key: k.into(), value: v.into() }));
+            vec![
+                Step::Attach(0),
+                Step::Link(0, "m1".into()),
+                Step::Quiesce,
+                Step::Stall(0),
+                // the first event occupies the writer; the next three are queued for the stalled remote
+                upd("7", "100"),
+                Step::Quiesce,
+                upd("-0.0", "101"),
+                upd("0.0", "102"),
+                upd("-0.0", "103"),
+                Step::Quiesce,
+                Step::Unstall(0),
+                Step::Settle,
+            ]
+        }
         _ => vec![Step::Attach(0), Step::Sync(0, "m1".into()), Step::Settle],
     };
     (cfg, script)
@@ -253,9 +273,10 @@ fn main() {
         });
         s.finish();
     }
-    let total = s.args.budget(20_000, 500_000);
     let len_max = if s.args.thorough() { 70 } else { 45 };
     for (focus, name, share) in focus_for(&prop) {
+        // supply conversations carry bursts of hundreds of items: fewer of them fit the thorough budget
+        let total = if focus == Focus::Supply { s.args.budget(20_000, 300_000) } else { s.args.budget(20_000, 500_000) };
         let n = (total * share / 100).max(1);
         s.part(
             name,
